@@ -154,11 +154,11 @@ class CovarianceMatrix(object):
                 subap_nj = 0
                 # Only loop over upper diagonal of covariance matrix as its symmetrical
                 for wfs_j in range(wfs_i+1):
-                    cov_xx, cov_yy, cov_xy = wfs_covariance(
+                    cov_xx, cov_yy, cov_xy, cov_yx = wfs_covariance(
                             self.n_subaps[wfs_i], self.n_subaps[wfs_j],
                             self.subap_layer_positions[layer_n][wfs_i], self.subap_layer_positions[layer_n][wfs_j],
                             self.subap_layer_diameters[layer_n][wfs_i], self.subap_layer_diameters[layer_n][wfs_j],
-                            self.layer_r0s[layer_n], self.layer_L0s[layer_n])
+                            self.layer_r0s[layer_n], self.layer_L0s[layer_n], True)
 
                     subap_ni = self.n_subaps[:wfs_i].sum()
                     subap_nj = self.n_subaps[:wfs_j].sum()
@@ -180,11 +180,11 @@ class CovarianceMatrix(object):
                             ] += cov_xx * r0_scale
                     self.covariance_matrix[
                             cov_mat_coord_x1 + self.n_subaps[wfs_i]: cov_mat_coord_x2 + self.n_subaps[wfs_i],
-                            cov_mat_coord_y1: cov_mat_coord_y2] += cov_xy * r0_scale
+                            cov_mat_coord_y1: cov_mat_coord_y2] += cov_yx * r0_scale
                     self.covariance_matrix[
                             cov_mat_coord_x1: cov_mat_coord_x2,
                             cov_mat_coord_y1 + self.n_subaps[wfs_j]: cov_mat_coord_y2 + self.n_subaps[wfs_j]
-                            ] += numpy.fliplr(numpy.flipud(cov_xy)) * r0_scale
+                            ] += cov_xy * r0_scale
                     self.covariance_matrix[
                             cov_mat_coord_x1 + self.n_subaps[wfs_i]: cov_mat_coord_x2 + self.n_subaps[wfs_i],
                             cov_mat_coord_y1 + self.n_subaps[wfs_j]: cov_mat_coord_y2 + self.n_subaps[wfs_j]
@@ -206,14 +206,14 @@ class CovarianceMatrix(object):
                             self.n_subaps[wfs_i], self.n_subaps[wfs_j],
                             self.subap_layer_positions[layer_n][wfs_i], self.subap_layer_positions[layer_n][wfs_j],
                             self.subap_layer_diameters[layer_n][wfs_i], self.subap_layer_diameters[layer_n][wfs_j],
-                            self.layer_r0s[layer_n], self.layer_L0s[layer_n]))
+                            self.layer_r0s[layer_n], self.layer_L0s[layer_n], True))
 
             self.cov_mats = pool.map(wfs_covariance_mpwrap, args)
 
             thread_n = 0
             for wfs_i in range(self.n_wfs):
                 for wfs_j in range(wfs_i+1):
-                    cov_xx, cov_yy, cov_xy = self.cov_mats[thread_n]
+                    cov_xx, cov_yy, cov_xy, cov_yx = self.cov_mats[thread_n]
 
                     subap_ni = self.n_subaps[:wfs_i].sum()
                     subap_nj = self.n_subaps[:wfs_j].sum()
@@ -235,11 +235,11 @@ class CovarianceMatrix(object):
                             ] += cov_xx * r0_scale
                     self.covariance_matrix[
                             cov_mat_coord_x1 + self.n_subaps[wfs_i]: cov_mat_coord_x2 + self.n_subaps[wfs_i],
-                            cov_mat_coord_y1: cov_mat_coord_y2] += cov_xy * r0_scale
+                            cov_mat_coord_y1: cov_mat_coord_y2] += cov_yx * r0_scale
                     self.covariance_matrix[
                             cov_mat_coord_x1: cov_mat_coord_x2,
                             cov_mat_coord_y1 + self.n_subaps[wfs_j]: cov_mat_coord_y2 + self.n_subaps[wfs_j]
-                            ] += numpy.fliplr(numpy.flipud(cov_xy)) * r0_scale
+                            ] += cov_xy * r0_scale
                     self.covariance_matrix[
                             cov_mat_coord_x1 + self.n_subaps[wfs_i]: cov_mat_coord_x2 + self.n_subaps[wfs_i],
                             cov_mat_coord_y1 + self.n_subaps[wfs_j]: cov_mat_coord_y2 + self.n_subaps[wfs_j]
@@ -271,7 +271,8 @@ def wfs_covariance_mpwrap(args):
     return wfs_covariance(*args)
 
 
-def wfs_covariance(n_subaps1, n_subaps2, wfs1_positions, wfs2_positions, wfs1_diam, wfs2_diam, r0, L0):
+def wfs_covariance(n_subaps1, n_subaps2, wfs1_positions, wfs2_positions, wfs1_diam, wfs2_diam, r0, L0,
+                   return_yx=False):
     """
     Calculates the covariance between 2 WFSs
 
@@ -284,9 +285,11 @@ def wfs_covariance(n_subaps1, n_subaps2, wfs1_positions, wfs2_positions, wfs1_di
         wfs2_diam: Diameter of WFS 2 sub-apertures
         r0: Fried parameter of turbulence
         L0: Outer scale of turbulence
+        return_yx (bool, optional): also return the covariance of the Y slopes of WFS 1 with the X slopes of WFS 2
 
     Returns:
         slope covariance of X with X , slope covariance of Y with Y, slope covariance of X with Y
+        (X slopes of WFS 1 with Y slopes of WFS 2), and if ``return_yx`` the slope covariance of Y with X
     """
 
     xy_seperations = calculate_wfs_seperations(n_subaps1, n_subaps2, wfs1_positions, wfs2_positions)
@@ -296,6 +299,10 @@ def wfs_covariance(n_subaps1, n_subaps2, wfs1_positions, wfs2_positions, wfs1_di
     cov_yy = compute_covariance_yy(xy_seperations, wfs1_diam, wfs2_diam, r0, L0)
     cov_xy = compute_covariance_xy(xy_seperations, wfs1_diam, wfs2_diam, r0, L0)
 
+    if return_yx:
+        # Y slope of WFS 1 with X slope of WFS 2: the same geometry with the roles of the diameters exchanged
+        cov_yx = compute_covariance_xy(xy_seperations, wfs2_diam, wfs1_diam, r0, L0)
+        return cov_xx, cov_yy, cov_xy, cov_yx
 
     return cov_xx, cov_yy, cov_xy
 
